@@ -13,6 +13,7 @@ import (
 	"encoding/json"
 	"fmt"
 	"math/big"
+	"strings"
 
 	"github.com/decred/dcrd/dcrec/secp256k1/v4"
 	"github.com/nspcc-dev/neo-go/pkg/crypto/keys"
@@ -535,7 +536,15 @@ func nep2Family(run *ev.Run, nLight, nStd int) {
 			}
 			wrongs = append(wrongs, "")
 		}
+		// HMAC (inside scrypt's PBKDF2) pads its key with zero bytes, so
+		// passphrases that differ only in trailing NULs are the same key
+		sameKey := func(a, b string) bool {
+			return strings.TrimRight(norm.NFC.String(a), "\x00") == strings.TrimRight(norm.NFC.String(b), "\x00")
+		}
 		for _, w := range wrongs[:1+r.Intn(len(wrongs))] {
+			if sameKey(w, pass) {
+				continue
+			}
 			if k, err := keys.NEP2Decrypt(enc, w, params); err == nil {
 				c.in["wrong_pass"] = hx([]byte(w))
 				c.fail("nep2:wrong-passphrase-accepted", fmt.Sprintf("decrypted to %x", k.Bytes()))
